@@ -131,13 +131,14 @@ theorem C03_merge_rows (bs : List Batch) (hwf : ∀ b ∈ bs, WFB b) (hnc : type
     (m : Batch) (hm : mergeBatches bs = .ok m) : m.rows = bs.flatMap Batch.rows :=
   (merge_rows bs hwf hnc m hm).1
 
-/-- a type change under one name inside a single merge is a Go panic (interface type assertion) — the
+/-- a type change under one name inside a single merge makes `mergeBatches` fail (an error since
+d29da22, a type-assertion panic before): the task's rows are not written — the
 reason the column signature must be type-aware; reachable only through `_`-prefixed internal columns,
 which the signature ignores -/
 theorem C03_merge_type_conflict_witness :
     (match mergeBatches [⟨[("time", ⟨.i64, [.i 1], none⟩), ("_x", ⟨.i64, [.i 1], none⟩)]⟩,
                   ⟨[("time", ⟨.i64, [.i 2], none⟩), ("_x", ⟨.f64, [.f 0], none⟩)]⟩] with
-      | .error .typePanic => true | _ => false) = true ∧
+      | .error .typeConflict => true | _ => false) = true ∧
     signature ⟨[("time", ⟨.i64, [.i 1], none⟩), ("_x", ⟨.i64, [.i 1], none⟩)]⟩ =
       signature ⟨[("time", ⟨.i64, [.i 2], none⟩), ("_x", ⟨.f64, [.f 0], none⟩)]⟩ := by decide
 
@@ -161,15 +162,15 @@ theorem C03_flush_files (l : List TBatch) (h : GoodGroup l) :
   intro f hf
   exact ⟨fun r hr => by rw [← hourBucketID_floor]; exact (b f hf).inHour r hr, (b f hf).sorted⟩
 
-/-! ## outside the model: the Parquet writer's schema cache (finding) -/
+/-! ## outside the model: the Parquet writer's schema cache (finding, fixed in /repo 7029960) -/
 
-/-- The LTS treats `WriteParquetColumnar` + reader as faithful (trusted base). That assumption is
-**false** for some column-name pools: `ArrowWriter.getSchema` keys its schema cache with `%v` of the
-name list, which is not injective — two different column sets of one measurement get the same key,
-the second flush is encoded against the first schema and fails (`column a b not found in data`), and
-its accepted rows are not stored (harness monitor `rows-lost:schema-cache-key-collision:getSchema`).
-`C03_full` therefore holds for the real code only on name pools on which the key is injective (e.g.
-names without spaces). -/
+/-- The LTS treats `WriteParquetColumnar` + reader as faithful (trusted base). Before 7029960 that
+assumption was **false** for some column-name pools: `ArrowWriter.getSchema` keyed its schema cache
+with `%v` of the name list (`schemaCacheKey` below is that old format), which is not injective — two
+different column sets of one measurement got the same key, the second flush was encoded against the
+first schema and failed (`column a b not found in data`), and its accepted rows were not stored
+(harness monitor `rows-lost:schema-cache-key-collision:getSchema`, kept as a regression probe). The
+fix renders the lists with `%q`. This witness records why `%v` cannot be used. -/
 theorem C03_schema_cache_collision_witness :
     schemaCacheKey "m" ["a b", "c", "time"] ["int64", "int64", "timestamp"] [] false =
       schemaCacheKey "m" ["a", "b c", "time"] ["int64", "int64", "timestamp"] [] false ∧
